@@ -201,6 +201,13 @@ impl Prop for C02 {
     }
     fn generate(&self, rc: &RunCtx) -> WriterCase {
         let mut c = gen_case(rc, rc.index % 2 == 0, true);
+        if rc.index % 512 == 300 {
+            // an XML section of 270..420 KB (one write call of several hundred pages)
+            let mut g = crate::rng::Rng::stream(rc.run_seed, "big-xml");
+            let n = 270_000 + g.usize_below(150_000);
+            c.prog.calls.retain(|x| !matches!(x, Call::CoordMeta(_)));
+            c.prog.calls.insert(0, Call::CoordMeta(Some("m".repeat(n))));
+        }
         if rc.index % 512 == 200 {
             // a page whose first version carries the checksum 0 / 0xFFFFFFFF
             if let Some(p) = program_with_page_checksum(rc.run_seed, (rc.index / 512) % 4 == 3) {
